@@ -1,9 +1,9 @@
 From Coq Require Import List Arith Bool String Ascii.
-From Wire Require Import Names Sets Model.
+From Wire Require Import Names Sets Model Exec.
 Import ListNotations.
 Definition snoc {A} (l : list A) (x : A) : list A := l ++ [x].
 Definition lapp {A} (l1 l2 : list A) : list A := l1 ++ l2.
-Open Scope string_scope.
+Local Open Scope string_scope.
 
 (* wire.go: gen.inject / injectPass (both passes), funcProviderCall, structProviderCall, valueExpr,
    fieldExpr, zeroValue, qualifyImport, nameInFileScope, nameInInjector -- as a function from the planned
@@ -158,7 +158,14 @@ Definition arg_name (ig : igst) (a : nat) : string :=
   if Nat.ltb a (List.length (ig_params ig)) then nth a (ig_params ig) "?ARG"
   else nth (a - List.length (ig_params ig)) (ig_locals ig) "?LOCAL".
 
-Definition rev_calls (names : list string) : list string := map (fun c => c ++ "()") (rev names).
+(* cleanup variable number c, as a call statement *)
+Definition cleanup_call (names : list string) (c : nat) : string := nth c names "?CLEANUP" ++ "()".
+
+(* the abstract step (Exec.v) behind a planned call: only function providers can have a cleanup or fail *)
+Definition pstep_of (c : call) : pstep :=
+  {| p_id := c_out c; p_args := c_args c;
+     p_cleanup := Nat.eqb (c_kind c) 0 && c_cleanup c;
+     p_err := Nat.eqb (c_kind c) 0 && c_err c |}.
 
 (* the header: parameter names and types *)
 Fixpoint emit_params (ps : list (string * nat)) (last_variadic : option nat) (ig : igst) (g : gst) (acc : list string)
@@ -180,12 +187,12 @@ Fixpoint emit_params (ps : list (string * nat)) (last_variadic : option nat) (ig
     end
   end.
 
-Definition emit_call (inj : injector) (c : call) (ig : igst) (g : gst) : list string * igst * gst :=
+Definition emit_call (inj : injector) (c : call) (ins : instr) (ig : igst) (g : gst) : list string * igst * gst :=
+  let '(ICall _ _ _ _ unwind) := ins in
   let lname := tvn_in (inj_names ig g) (tv_names (c_out c)) "v" unexport in
   let ig1 := mkIG (ig_params ig) (snoc (ig_locals ig) lname) (ig_cleanups ig) (ig_err ig) in
   match c_kind c with
   | 0 =>
-    let prev := ig_cleanups ig1 in
     let '(cn, ig2) :=
       if c_cleanup c then
         let cname := disamb_in (inj_names ig1 g) "cleanup" in
@@ -198,7 +205,7 @@ Definition emit_call (inj : injector) (c : call) (ig : igst) (g : gst) : list st
     if c_err c then
       let '(z, g2) := zero_value g1 (i_out inj) in
       let ret := "  RET " ++ z ++ (if i_cleanup inj then ", nil" else "") ++ ", err" in
-      (lapp [line; "IF " ++ ig_err ig2 ++ " != nil"] (snoc (map (fun s => "  EXPR " ++ s) (rev_calls prev)) ret), ig2, g2)
+      (lapp [line; "IF " ++ ig_err ig2 ++ " != nil"] (snoc (map (fun c => "  EXPR " ++ cleanup_call (ig_cleanups ig2) c) unwind) ret), ig2, g2)
     else ([line], ig2, g1)
   | 1 =>
     let '(tn, g1) := qualified_id g (c_pkg c) (c_name c) in
@@ -214,11 +221,11 @@ Definition emit_call (inj : injector) (c : call) (ig : igst) (g : gst) : list st
   | _ => (["?KIND"], ig1, g)
   end.
 
-Fixpoint emit_calls (inj : injector) (cs : list call) (ig : igst) (g : gst) (acc : list string)
+Fixpoint emit_calls (inj : injector) (cs : list call) (is : list instr) (ig : igst) (g : gst) (acc : list string)
   : list string * igst * gst :=
-  match cs with
-  | [] => (acc, ig, g)
-  | c :: r => let '(ls, ig', g') := emit_call inj c ig g in emit_calls inj r ig' g' (lapp acc ls)
+  match cs, is with
+  | c :: r, ins :: ir => let '(ls, ig', g') := emit_call inj c ins ig g in emit_calls inj r ir ig' g' (lapp acc ls)
+  | _, _ => (acc, ig, g)
   end.
 
 (* one run of injectPass; the caller decides whether the lines are kept *)
@@ -228,13 +235,17 @@ Definition inject_pass (inj : injector) (cs : list call) (g : gst) : list string
   let '(outs, g2) := type_string tdepth g1 (i_out inj) in
   let results := lapp [outs] (lapp (if i_cleanup inj then ["func()"] else []) (if i_err inj then ["error"] else [])) in
   let sig := "SIG " ++ i_name inj ++ "(" ++ join ", " ps ++ ") -> " ++ join ", " results in
-  let '(body, ig2, g3) := emit_calls inj cs ig1 g2 [] in
+  let code := Exec.emit (map pstep_of cs) (i_cleanup inj) in
+  let '(body, ig2, g3) := emit_calls inj cs (Exec.body code) ig1 g2 [] in
   let rv := match cs with
             | [] => nth (i_argidx inj) (ig_params ig2) "?ARGIDX"
             | _ => last (ig_locals ig2) "?NOLOCAL"
             end in
   let ret := "RET " ++ rv ++
-             (if i_cleanup inj then ", func(){" ++ join ";" (rev_calls (ig_cleanups ig2)) ++ "}" else "") ++
+             (match ret_cleanups code with
+              | Some l => ", func(){" ++ join ";" (map (cleanup_call (ig_cleanups ig2)) l) ++ "}"
+              | None => ""
+              end) ++
              (if i_err inj then ", nil" else "") in
   (sig :: snoc body ret, g3).
 
